@@ -17,6 +17,7 @@ TRUSTED_COMMON = [
 
 def common_stage(rep, need_theorems=True):
     """source facts, full Coq build, forbidden-construct scan, the property's theorem file"""
+    prune_cache()
     ok, msg = source_facts()
     # a lost anchor is charged to the properties whose model constants it feeds (unknown anchors to every property)
     ANCHOR_PROPS = [("space_chars", "C04 C10 C09"), ("skip_newline", "C04 C10"), ("source_point", "C10"), ("update body", "C10"), ("is_printable", "C03 C17"), ("is_dec_digit", "C03 C17"),
